@@ -140,7 +140,9 @@ _CALLTR = (" Call<RecvResponse>::try_response itself (complete head or the parti
 CLAIMED["C05"]["text"] += _CALLTR % "c05_code_call_try_response"
 CLAIMED["C06"]["text"] += _CALLTR % "c06_code_call_try_response"
 CLAIMED["C05"]["technique"] += " + the code's own functions translated to Gallina on every run and proved equivalent to the model"
-for _p in ("C03", "C04", "C06", "C07", "C08", "C09", "C10", "C11", "C12", "C17"):
+CLAIMED["C02"]["text"] += CODE2 % ("client/call.rs try_write_prelude (loop), try_write_prelude_part (phase machine), do_write_send_line, do_write_headers (loop, blank line glued to the last header line); the request is represented by the rendered pieces of its request line and its effective headers",
+                                   "c02_code_write_prelude, c02_code_write_headers: for every request with at least one effective header, every phase and capacity: same new phase, same bytes, same refusal; the translated loop's fuel suffices")
+for _p in ("C02", "C03", "C04", "C06", "C07", "C08", "C09", "C10", "C11", "C12", "C17"):
     CLAIMED[_p]["technique"] += " + the code's own functions translated to Gallina on every run and proved equivalent to the model"
 
 NOT_YET = {}
